@@ -288,7 +288,10 @@ func calculateExclusiveEndFromPrefix(in []byte) []byte {
 	for i := len(rv) - 1; i >= 0; i-- {
 		rv[i]++
 		if rv[i] != 0 {
-			return rv // didn't overflow, so stop
+			// didn't overflow, so stop; the bytes after i overflowed to
+			// 0x00 and are dropped, otherwise keys between rv[:i+1] and
+			// rv (which do not have the prefix) would be in the range
+			return rv[:i+1]
 		}
 	}
 	// all bytes were 0xff, so return nil
